@@ -75,8 +75,13 @@ def to_lib(K, naming='int', how=0, containers='list'):
             # label sets sharing ONE set object (IDLE = {'idle'}; {0: IDLE, 1: BUSY, 2: IDLE}): whatever
             # the checkers do on their working copy must not travel along the alias
             pool = {}
-            kr.replace_labelling_function(dict(
-                (nm(i), pool.setdefault(frozenset(K['labels'][i]), set(K['labels'][i]))) for i in range(n)))
+            newL = dict((nm(i), pool.setdefault(frozenset(K['labels'][i]), set(K['labels'][i]))) for i in range(n))
+            # ... and the dict is a table kept for a larger family of models: it also has entries for
+            # things that are not states of THIS structure (the constructor ignores such keys too)
+            atoms_ = sorted(set(a for l in K['labels'] for a in l)) or ['p']
+            newL[('not-a-state', 1)] = set(atoms_)
+            newL['ghost'] = set(atoms_[:1])
+            kr.replace_labelling_function(newL)
         return kr
     except Exception as e:
         from . import core
